@@ -32,7 +32,8 @@ def RULE(tier):
             "&, =, #, +, %%41, ;, empty) x %s of 5 header fields x 9 bodies (raw incl. all 256 byte values, JSON data, form fields) x "
             "explicit Content-Length or not; built by the real Requester (and http.Client for a subset), parsed by the real Requestant "
             "and Server.buildEnviron; method, path, query arguments (reference urlencoded reader), header values and body bytes must "
-            "be recovered." % (("<= 1", "<= 1") if tier == "quick" else ("<= 2", "<= 2")))
+            "be recovered; and the same for the SECOND request of a reused Requester (3 earlier requests: form fields, JSON data, raw body "
+            "with headers and query) over all 9 bodies x 2 query dicts x 2 header sets." % (("<= 1", "<= 1") if tier == "quick" else ("<= 2", "<= 2")))
 
 
 def EXHAUSTIVE(tier):
@@ -82,7 +83,14 @@ def cls_of(s):
     return "plain"
 
 
-def check(method, path, qargs, headers, bkind, bval, explicit_cl, via_client=False):
+PRIORS = [dict(method="POST", path="/prior", qargs={"p": "1"}, headers={"X-Prior": "p"}, fargs={"f": "g h"}),
+          dict(method="PUT", path="/prior", qargs={}, headers={}, data={"prior": [1]}),
+          dict(method="POST", path="/prior", qargs={"p": "q r"}, headers={"X-Prior": "p", "Content-Type": "text/x"}, body=b"prior-body")]
+SEQ_QARGS = [{}, {"a": "a b"}]
+SEQ_HEADERS = [[], [("X-A", "1")]]
+
+
+def check(method, path, qargs, headers, bkind, bval, explicit_cl, via_client=False, prior=None):
     v = []
     kw = dict(method=method, path=path, qargs=dict(qargs), headers=dict(headers))
     if bkind == "raw":
@@ -94,6 +102,10 @@ def check(method, path, qargs, headers, bkind, bval, explicit_cl, via_client=Fal
     try:
         if via_client:
             msg = build_via_client(kw)
+        elif prior is not None:     # the Requester built another request before (as http.Client reuses its requester)
+            rq = clienting.Requester(hostname="127.0.0.1", port=6101, **PRIORS[prior])
+            rq.build()
+            msg = rq.rebuild(**kw)
         else:
             rq = clienting.Requester(hostname="127.0.0.1", port=6101, **kw)
             if explicit_cl:
@@ -231,12 +243,29 @@ def run_job(job, tier, seed):
         case = [method, pi, qi, 1, 1, False, True]
         viols = check(method, path, qargs, hs[1], BODIES[1][0], BODIES[1][1], False, via_client=True)
         acc.case(case, "ok" if not viols else viols[0][0], viols) if viols else acc.bulk(1, 1)
+    # second request of a reused Requester: it must be recovered on its own terms, nothing inherited from the first
+    for pri in range(len(PRIORS)):
+        for qs in range(len(SEQ_QARGS)):
+            for hsel in range(len(SEQ_HEADERS)):
+                for bi, (bkind, bval) in enumerate(BODIES):
+                    viols = [("after-earlier-request:" + k, m) for k, m in
+                             check(method, path, SEQ_QARGS[qs], SEQ_HEADERS[hsel], bkind, bval, False, prior=pri)]
+                    case = ["seq", pri, method, pi, qs, hsel, bi]
+                    cnt += 1
+                    if viols or cnt % 1499 == 1:
+                        acc.case(case, "ok" if not viols else viols[0][0], viols, sample=dict(method=method, path=path, prior=pri, body_kind=bkind))
+                    else:
+                        acc.bulk(1, 1)
     acc.r.obs.add(hash((method, pi)))
     return acc.result()
 
 
 def replay(job, case):
     import os
+    if case[0] == "seq":
+        _, pri, method, pi, qs, hsel, bi = case
+        return [("after-earlier-request:" + k, m) for k, m in
+                check(method, PATHS[pi], SEQ_QARGS[qs], SEQ_HEADERS[hsel], BODIES[bi][0], BODIES[bi][1], False, prior=pri)]
     method, pi, qi, hi, bi, explicit, via = case
     for tier in (os.environ.get("VERIF_TIER", "quick"), "thorough"):
         qs, hs = qarg_sets(tier), header_sets(tier)
